@@ -305,6 +305,8 @@ class Evaluator:
         self.aranges = []
         self.decorators_ok = set()         # keys of decorated functions whose wrapper was shown to be transparent
         self.last_loop = None              # summary of the most recent element loop (raises per character)
+        self._global_cache = {}
+        self._global_busy = set()
         self.opaque_calls = {}             # FuncInfo.key -> atom name (do not inline)
         self.trace = []                    # loop summaries for evidence
         self.self_cls = self_cls
@@ -630,9 +632,12 @@ class Evaluator:
                 else:
                     raise Undecided("loop over %s is not a one-to-one map" % it.name, fr.f.loc(s))
             return [Path(p.conds, "live", None, out)]
-        if isinstance(it, (list, tuple, dict)) and isinstance(s.target, ast.Name):
+        tuple_target = isinstance(s.target, (ast.Tuple, ast.List)) and all(isinstance(e, ast.Name) for e in s.target.elts)
+        if isinstance(it, (list, tuple, dict)) and (isinstance(s.target, ast.Name) or tuple_target):
             # concrete iteration over a literal container (small, finite)
             keys = list(it.keys()) if isinstance(it, dict) else list(it)
+            if tuple_target and not all(isinstance(k, (tuple, list)) and len(k) == len(s.target.elts) for k in keys):
+                raise Undecided("unpacking loop target over items of another shape", fr.f.loc(s))
             if len(keys) > 64:
                 raise Undecided("literal loop too long", fr.f.loc(s))
             paths = [p]
@@ -643,7 +648,11 @@ class Evaluator:
                         new.append(q)
                         continue
                     e2 = dict(q.env)
-                    e2[s.target.id] = k
+                    if tuple_target:
+                        for e_, x_ in zip(s.target.elts, k):
+                            e2[e_.id] = x_
+                    else:
+                        e2[s.target.id] = k
                     for r in self.exec_block(s.body, [Path(q.conds, "live", None, e2)], fr):
                         if r.kind == "continue":
                             r = Path(r.conds, "live", None, r.env)
@@ -1182,6 +1191,33 @@ class Evaluator:
                 return _wrap(tab.literal(m, m.globals[name]))
             except Undecided:
                 pass
+            # a module-level constant computed from other constants (`'E' * len(GROUP)`, `str.maketrans(A, B)`, a table-building helper called
+            # on a literal): constant folding with the same evaluator, in a frame that has no locals
+            ck = (m.rel, name)
+            if ck in self._global_cache:
+                return self._global_cache[ck]
+            if ck in self._global_busy or fr.depth > MAX_DEPTH - 2:
+                raise Undecided("module-level name %s is defined in terms of itself" % name, fr.f.loc(node))
+            self._global_busy.add(ck)
+            try:
+                stores = [n for n in ast.walk(m.tree) if isinstance(n, (ast.Assign, ast.AugAssign, ast.AnnAssign)) and any(
+                    isinstance(x, ast.Name) and x.id == name and isinstance(x.ctx, ast.Store) for t in (n.targets if isinstance(n, ast.Assign) else [n.target]) for x in ast.walk(t))]
+                subs = [n for n in ast.walk(m.tree) if isinstance(n, (ast.Assign, ast.AugAssign, ast.Delete)) and any(
+                    isinstance(x, ast.Subscript) and isinstance(x.value, ast.Name) and x.value.id == name and not isinstance(x.ctx, ast.Load)
+                    for t in (n.targets if isinstance(n, (ast.Assign, ast.Delete)) else [n.target]) for x in ast.walk(t))]
+                if len(stores) != 1 or subs:
+                    raise Undecided("module-level name %s is assigned %d times / edited in place" % (name, len(stores)), fr.f.loc(node))
+                pseudo = ast.FunctionDef(name="<module>", args=ast.arguments(posonlyargs=[], args=[], kwonlyargs=[], kw_defaults=[], defaults=[]), body=[], decorator_list=[],
+                                         lineno=getattr(m.globals[name], "lineno", 1), col_offset=0)
+                from .model import FuncInfo
+                mfr = _Frame(FuncInfo(m, None, pseudo), fr.depth + 1)
+                v = self.eval(m.globals[name], {}, mfr)
+                if not _is_concrete(v):
+                    raise Undecided("module-level name %s does not fold to a constant" % name, fr.f.loc(node))
+                self._global_cache[ck] = v
+                return v
+            finally:
+                self._global_busy.discard(ck)
         raise Undecided("module-level name %s has no literal value" % name, fr.f.loc(node))
 
     def eval_attr(self, node, env, fr):
@@ -1312,6 +1348,9 @@ class Evaluator:
         op = type(node.op).__name__
         # list / string building
         if op == "Mult":
+            for x_, y_ in ((a, b), (b, a)):
+                if isinstance(x_, str) and len(x_) != 1 and isinstance(y_, Rat) and y_.is_const() and y_.const_value().denominator == 1:
+                    return x_ * max(0, int(y_.const_value()))
             if isinstance(a, str) and len(a) == 1 and isinstance(b, Rat):
                 return RLEV([(a, b)])
             if isinstance(b, str) and len(b) == 1 and isinstance(a, Rat):
@@ -1450,15 +1489,44 @@ class Evaluator:
         if name == "dict" and len(args) <= 1 and not node.keywords:
             if not args:
                 return {}
-            v = self.eval(args[0], env, fr)
+            a0 = args[0]
+            if isinstance(a0, ast.GeneratorExp):
+                a0 = ast.copy_location(ast.ListComp(elt=a0.elt, generators=a0.generators), a0)
+            v = self.eval(a0, env, fr)
             if isinstance(v, dict):
                 return dict(v)
+            if isinstance(v, (list, tuple)) and all(isinstance(x, (tuple, list)) and len(x) == 2 and _pykey(x[0]) is not None for x in v):
+                return {_pykey(x[0]): x[1] for x in v}
             raise Undecided("dict(%s)" % unparse(args[0])[:40], fr.f.loc(node))
         if name in ("float", "int", "str", "abs", "len", "list", "set", "min", "max", "sum", "range",
                     "sorted", "tuple", "round"):
             return self.builtin(name, node, env, fr)
         if isinstance(fn, ast.Attribute) and isinstance(fn.value, ast.Name) and fn.value.id in ("np", "numpy", "math"):
             return self.numpy(fn.attr, node, env, fr)
+        if isinstance(fn, ast.Attribute) and fn.attr == "maketrans" and len(args) in (1, 2) and not node.keywords:
+            vals = [self.eval(a, env, fr) for a in args]
+            vals = [(_concrete_str(x) if _concrete_str(x) is not None else x) for x in vals]
+            if len(vals) == 2 and all(isinstance(x, str) for x in vals):
+                if len(vals[0]) != len(vals[1]):
+                    raise _Raised("ValueError")
+                t = TransTable()
+                for a_, b_ in zip(vals[0], vals[1]):
+                    t[a_] = b_            # later entries win, as in CPython
+                return t
+            if len(vals) == 1 and isinstance(vals[0], dict) and all(isinstance(k, str) and len(k) == 1 and isinstance(x, str) for k, x in vals[0].items()):
+                return TransTable(vals[0])
+            raise Undecided("maketrans of non-constant arguments", fr.f.loc(node))
+        if isinstance(fn, ast.Attribute) and fn.attr == "translate" and len(args) == 1 and not node.keywords:
+            base = self.eval(fn.value, env, fr)
+            t = self.eval(args[0], env, fr)
+            if isinstance(t, TransTable):
+                if isinstance(base, SeqV) and base.kind == "seq":
+                    return StrMapV({L: t.get(L, L) for L in self.universe})
+                if isinstance(base, StrMapV):
+                    return StrMapV({L: "".join(t.get(c, c) for c in out) for L, out in base.table.items()})
+                if isinstance(base, str):
+                    return "".join(t.get(c, c) for c in base)
+            raise Undecided("translate of %r with %r" % (base, type(t).__name__), fr.f.loc(node))
         if isinstance(fn, ast.Attribute):
             # methods of modelled values
             if fn.attr == "join" and len(args) == 1:
@@ -1486,6 +1554,18 @@ class Evaluator:
                 if isinstance(base, str):
                     return getattr(base, fn.attr)()
                 raise Undecided("method %s on %r" % (fn.attr, base), fr.f.loc(node))
+            if fn.attr == "get" and len(args) in (1, 2) and not node.keywords:
+                try:
+                    base_g = self.eval(fn.value, env, fr)
+                except Undecided:
+                    base_g = None
+                if isinstance(base_g, dict) and not isinstance(base_g, PaletteV if isinstance(PaletteV, type) else ()):
+                    k = _pykey(self.eval(args[0], env, fr))
+                    if k is None:
+                        raise Undecided("dict.get with a symbolic key (%s)" % unparse(node)[:50], fr.f.loc(node))
+                    if k in base_g:
+                        return base_g[k]
+                    return self.eval(args[1], env, fr) if len(args) == 2 else None
             if fn.attr in ("keys", "upper", "lower", "count", "values", "items", "isspace"):
                 base = self.eval(fn.value, env, fr)
                 if fn.attr == "keys" and isinstance(base, dict):
@@ -1786,6 +1866,20 @@ class Evaluator:
                 if fl is not None:
                     return fl
                 return fatom(attr, a)
+        if attr == "sign" and len(args) == 1:
+            a = _as_rat(args[0])
+            if a is not None and a.is_const():
+                c = a.const_value()
+                return Rat.const(1 if c > 0 else (-1 if c < 0 else 0))
+            if a is not None:
+                return fatom("sign", a)
+        if attr in ("array", "asarray") and len(args) == 1 and isinstance(args[0], (SeqV, ListAcc, list, ZerosV)):
+            dt = [k for k in node.keywords if k.arg == "dtype"]
+            if all(unparse(k.value) in ("float", "np.float64", "int", "np.float_", "'float'", "np.double") for k in dt) and len(dt) == len(node.keywords):
+                if isinstance(args[0], ListAcc) and not args[0].items:
+                    return args[0]
+                if isinstance(args[0], (SeqV, ZerosV)):
+                    return args[0]          # element-wise exact values: float/int conversion of -1/0/1 and of counts changes nothing
         raise Undecided("numpy/math idiom %s not in the normaliser's table" % attr, fr.f.loc(node))
 
 
@@ -1909,6 +2003,39 @@ def _num(v):
     return v
 
 
+def _concrete_str(v):
+    """a str, or a run-length string whose multiplicities are all constant non-negative integers -> str ; else None"""
+    if isinstance(v, str):
+        return v
+    if isinstance(v, RLEV):
+        out = []
+        for ch, k in v.blocks:
+            if not (isinstance(k, Rat) and k.is_const()):
+                return None
+            c = k.const_value()
+            if c.denominator != 1 or c < 0:
+                return None
+            out.append(ch * int(c))
+        return "".join(out)
+    return None
+
+
+class TransTable(dict):
+    """result of str.maketrans(a, b): character -> character (kept on characters, not code points)"""
+
+
+def _is_concrete(v):
+    if isinstance(v, (str, int, bool, Fraction, type(None))):
+        return True
+    if isinstance(v, Rat):
+        return v.is_const()
+    if isinstance(v, dict):
+        return all(_is_concrete(k) and _is_concrete(x) for k, x in v.items())
+    if isinstance(v, (list, tuple)):
+        return all(_is_concrete(x) for x in v)
+    return False
+
+
 def _wrap(v):
     if isinstance(v, Fraction):
         return Rat.const(v)
@@ -1939,8 +2066,13 @@ def _pykey(v):
             c = v.const_value()
             return int(c) if c.denominator == 1 else c
         return None
+    if isinstance(v, Fraction):
+        return int(v) if v.denominator == 1 else v
     if isinstance(v, (str, int, bool)) or v is None:
         return v
+    if isinstance(v, tuple):
+        ks = tuple(_pykey(x) for x in v)
+        return None if any(k is None and x is not None for k, x in zip(ks, v)) else ks
     return None
 
 
